@@ -334,8 +334,52 @@ def case_foreign(case):
     return out
 
 
+NUMBERED = [("GearShort", "address", 64, 16, 9, 0x00), ("GearGroup", "group", 16, 16, 9, 0x40),
+            ("DeviceShort", "address", 64, 24, 17, 0x00), ("DeviceGroup", "group", 32, 24, 17, 0x40)]
+
+
+def case_lifetime(case):
+    """Address objects are plain values with a public number: what the program does with one object (renumbering
+    it before it is written, editing an object a decode handed out) is visible in that object and nowhere else.
+    case: {"op": "lifetime", "cls": index into NUMBERED, "n1":, "n2":, "v": frame value}"""
+    address, frame, exc = _mods()
+    name, attr, top, bits, shift, flag = NUMBERED[case["cls"]]
+    cls = getattr(address, name)
+    n1, n2, v = case["n1"], case["n2"], case["v"]
+    where = "%s: n1=%d n2=%d frame %#x" % (name, n1, n2, v)
+    out = []
+    try:
+        # (a) built with n1, renumbered to n2, then written
+        o = cls(n1)
+        setattr(o, attr, n2)
+        f = frame.ForwardFrame(bits, v | (1 << 16) if bits == 24 else v)
+        o.add_to_frame(f)
+        r = address.from_frame(f)
+        if describe(r) != (name, n2) or not (r == o):
+            out.append(("C04:renumbered-object-written-with-old-number:" + name,
+                        "%s: object renumbered %d -> %d writes a field that reads back as %r" % (where, n1, n2, describe(r))))
+        # (b) decode, edit the object that was handed out, decode the same bits again
+        fv = (v & ~(0x7F << shift)) | ((flag | n1) << shift) | ((1 << 16) if bits == 24 else 0)
+        r1 = address.from_frame(frame.ForwardFrame(bits, fv))
+        if describe(r1) == (name, n1):
+            setattr(r1, attr, n2)
+        r2 = address.from_frame(frame.ForwardFrame(bits, fv))
+        if describe(r2) != (name, n1):
+            out.append(("C04:decode-result-shared-with-caller:" + name,
+                        "%s: after the caller edited the object decoded from %#x, decoding the same bits gives %r"
+                        % (where, fv, describe(r2))))
+        fresh = cls(n1)
+        if describe(fresh) != (name, n1) or not (fresh == r2):
+            out.append(("C04:decode-result-shared-with-caller:" + name, "%s: %s(%d) now is %r" % (where, name, n1, describe(fresh))))
+    except Exception as e:  # noqa
+        out.append(("C04:lifetime-raised:%s" % type(e).__name__, "%s: %r" % (where, e)))
+    return out
+
+
 def run_case(case):
     op = case["op"]
+    if op == "lifetime":
+        return case_lifetime(case)
     if op == "write":
         return case_write(case)
     if op == "decode":
@@ -388,6 +432,21 @@ def _shard(arg):
         res.label("decode:%d" % bits, 1)
         if lo == 0:
             res.sample({"op": "decode", "bits": bits, "v": lo + stride * 77})
+    elif kind == "lifetime":
+        _, ci, seed = arg
+        name, attr, top, bits, shift, flag = NUMBERED[ci]
+        for n1 in range(top):
+            for n2 in range(top):
+                if n1 == n2:
+                    continue
+                v = ((n1 * 2654435761 + n2 * 40503 + seed * 97) & ((1 << bits) - 1))
+                case = {"op": "lifetime", "cls": ci, "n1": n1, "n2": n2, "v": v}
+                res.count()
+                res.nontrivial()
+                for sig, msg in case_lifetime(case):
+                    res.violation(sig, case, msg)
+        res.label("lifetime:" + name, 1)
+        res.sample({"op": "lifetime", "cls": ci, "n1": 3, "n2": 9, "v": 0x1234})
     elif kind == "wrongsize":
         _, space = arg
         objs = {"gear": gear_objects, "device": device_objects, "instance": instance_objects}[space](address)
@@ -453,6 +512,8 @@ def run(ctx):
     for space in ("gear", "device", "instance"):
         shards.append(("wrongsize", space))
     shards.append(("eq",))
+    for ci in range(len(NUMBERED)):
+        shards.append(("lifetime", ci, ctx.seed))
     ctx.pmap(_shard, shards)
     ctx.result.exhaustive = not q
     ctx.result.extra["strides"] = {"gear_write": stride, "device_write": dstride, "instance_write": istride, "decode24": d24}
